@@ -66,3 +66,16 @@ SPECS['C13'] = {
     'thorough': [J('c13', 'fast', srcs=SREF), J('c13', 'amd64', srcs=SREF), J('c13', 'asan', srcs=SREF, deadline=900)],
     'budget': {'quick': 150, 'thorough': 1500},
 }
+
+SPECS['C01'] = {
+    'level': 'exploration',
+    'technique': 'bounded exhaustive enumeration of signing/verifying interface pairs, scripted nonces (incl. solved retry branches), chunkings, ID shapes, (r,s) boundary pairs and the complete 1-deviation neighbourhood of DER signatures on the real code; reference model = OpenSSL BN/EC equations + OpenSSL EVP SM2',
+    'claim': 'For the key set D, scripted nonces and message/ID grids every signing interface returns exactly the GB/T 32918.2 (r,s) of the nonce drawn and it verifies under every verification interface and under OpenSSL; every offered (r,s) boundary pair, every single-bit flip / truncation / one-byte extension / non-canonical re-encoding of a valid signature, and every message / public-key bit flip is accepted iff the reference predicate (strict DER and equations) accepts; Z binds exactly idlen bytes.',
+    'trusted': 'OpenSSL BN/EC and SM3; the strict-DER predicate and DER encoder written for the harness (cross-checked by OpenSSL EVP verification of library signatures); scripted entropy shim',
+    'rule': 'sign: 5 keys x 5 nonces (1,2,n-1,n-2,typical) x 12 message lengths x {sm2_sign, sm2_do_sign, streaming init/update/finish, reset+finish, finish_fixlen x3, sign_fixlen x3}; retry: 5 keys x 3 nonces x {r=0, r+k=n, s=0} solved digests; chunks: every 2-cut of every message <= 130 (thorough 194) through streaming sign and verify; id: 3 content kinds x 8 lengths x {exact heap buffer, NUL after}, 7x7 cross-ID matrix; rs-pairs: ~29x29 boundary pairs x {do_verify, fast_verify, DER via sm2_verify and verify ctx}; der: per (key, length shape) every bit flip, truncation, 256 one-byte extensions inside/outside, 17 non-canonical forms, 160 message and 512 public-key bit flips; interop: OpenSSL-made signatures. distinct = parameter tuple / offered byte string; non-trivial = reference gives a definite verdict.',
+    'bound': {'quick': '1 deviation from a valid signature; keys {1, typical} for neighbourhoods', 'thorough': 'all 5 keys, 3 length shapes'},
+    'assumptions': ['keys, nonces, messages outside the sets are not covered', 'multi-bit forgeries out of scope'],
+    'quick': [J('c01', 'fast', srcs=SREF), J('c01', 'asan', srcs=SREF, deadline=110)],
+    'thorough': [J('c01', 'fast', srcs=SREF), J('c01', 'asan', srcs=SREF), J('c01', 'amd64', srcs=SREF)],
+    'budget': {'quick': 150, 'thorough': 1500},
+}
